@@ -51,7 +51,7 @@ pub fn fmt_msg() -> (r: String) { unimplemented!() }
 //@@ end
 
 pub struct HdrWrite { pub sent: Ghost<Seq<ProtocolHeader>> }
-pub struct HdrRead { pub got: Ghost<Seq<ProtocolHeader>> }
+pub struct HdrRead { pub got: Ghost<Seq<ProtocolHeader>>, pub received: Ghost<Seq<u8>>, pub unread: Ghost<Seq<u8>> }
 impl HdrWrite {
     #[verifier::external_body]
     pub fn send(&mut self, h: ProtocolHeader) -> (r: Result<(), IoError>)
@@ -62,12 +62,47 @@ impl HdrRead {
     #[verifier::external_body]
     pub fn next(&mut self) -> (r: Option<Result<ProtocolHeader, NegotiationError>>)
         ensures (match r { Some(Ok(h)) => final(self).got@ == old(self).got@.push(h), _ => final(self).got@ == old(self).got@ }),
+            final(self).unread == final(self).received,       // whatever was read from the socket beyond the header is in the read buffer
     { unimplemented!() }
 }
 /// the frame transport built from the two halves once the headers are exchanged
 pub struct TransportS { pub hdr_sent: Ghost<Seq<ProtocolHeader>>, pub hdr_got: Ghost<Seq<ProtocolHeader>> }
 #[verifier::external_body]
 pub fn bind_after_headers(w: HdrWrite, r: HdrRead) -> (t: TransportS) ensures t.hdr_sent@ == w.sent@, t.hdr_got@ == r.got@ { unimplemented!() }
+//@@ trusted the switch of codecs after the header exchange, piece by piece: length_delimited_encoder / decoder (unit TRANSPORT) yield opaque codecs; map_encoder / map_decoder keep the traces AND the read buffer (tokio_util), into_inner gives the bare half without it, FramedRead::new / FramedWrite::new start with an empty buffer; Transport::bind_to_framed_codec takes the halves as they are
+pub struct ProtocolHeaderCodec {}
+pub struct LdEncoder {}
+pub struct LdDecoder {}
+pub fn length_delimited_encoder(n: usize) -> (r: LdEncoder) { LdEncoder {} }
+pub fn length_delimited_decoder(n: usize) -> (r: LdDecoder) { LdDecoder {} }
+pub struct FrameWrite { pub sent: Ghost<Seq<ProtocolHeader>> }
+pub struct FrameRead { pub got: Ghost<Seq<ProtocolHeader>>, pub received: Ghost<Seq<u8>>, pub unread: Ghost<Seq<u8>> }
+pub struct IoW { pub sent: Ghost<Seq<ProtocolHeader>> }
+pub struct IoR { pub got: Ghost<Seq<ProtocolHeader>>, pub received: Ghost<Seq<u8>> }
+impl HdrWrite {
+    #[verifier::external_body]
+    pub fn map_encoder<F: FnOnce(ProtocolHeaderCodec) -> LdEncoder>(self, f: F) -> (r: FrameWrite) ensures r.sent == self.sent { unimplemented!() }
+    #[verifier::external_body]
+    pub fn into_inner(self) -> (r: IoW) ensures r.sent == self.sent { unimplemented!() }
+}
+impl HdrRead {
+    #[verifier::external_body]
+    pub fn map_decoder<F: FnOnce(ProtocolHeaderCodec) -> LdDecoder>(self, f: F) -> (r: FrameRead) ensures r.got == self.got, r.received == self.received, r.unread == self.unread { unimplemented!() }
+    #[verifier::external_body]
+    pub fn into_inner(self) -> (r: IoR) ensures r.got == self.got, r.received == self.received { unimplemented!() }
+}
+pub struct FramedWrite {}
+pub struct FramedRead {}
+impl FramedWrite { #[verifier::external_body] pub fn new(io: IoW, c: LdEncoder) -> (r: FrameWrite) ensures r.sent == io.sent { unimplemented!() } }
+impl FramedRead { #[verifier::external_body] pub fn new(io: IoR, c: LdDecoder) -> (r: FrameRead) ensures r.got == io.got, r.received == io.received, r.unread@ == Seq::<u8>::empty() { unimplemented!() } }
+pub struct Transport {}
+impl Transport {
+    #[verifier::external_body]
+    pub fn bind_to_framed_codec(w: FrameWrite, r: FrameRead, idle_timeout: Ghost<int>) -> (t: TransportS)
+        requires r.unread@ == r.received@,        // [C06.header.pipelined-octets-survive-the-codec-switch] incoming frames are decoded identically however the byte stream is split across reads: octets of the peer's first frame (its Open) that arrived in the same read as its protocol header are still in the read buffer when the frame codec takes over
+        ensures t.hdr_sent@ == w.sent@, t.hdr_got@ == r.got@,
+    { unimplemented!() }
+}
 
 //@@ fn file=fe2o3-amqp/src/transport/mod.rs name=send_amqp_proto_header
 //@@ qmark
@@ -95,6 +130,7 @@ pub fn bind_after_headers(w: HdrWrite, r: HdrRead) -> (t: TransportS) ensures t.
 //@@ subst `format!( "Expecting {:?}, found {:?}", proto_header, incoming_header )` => `fmt_msg()` rule=R9
 //@@ spec
     ensures
+        r is Ok ==> final(framed_read).unread == final(framed_read).received,
         r is Ok ==> r->Ok_0 == *proto_header && final(framed_read).got@ == old(framed_read).got@.push(*proto_header) && *final(local_state) == *old(local_state),   // [C12.header.peer-header-checked] negotiation goes on only if the peer's header is exactly the expected protocol id and version
         r is Err ==> *final(local_state) == *old(local_state) || *final(local_state) is End,
 //@@ end
@@ -111,6 +147,7 @@ pub fn bind_after_headers(w: HdrWrite, r: HdrRead) -> (t: TransportS) ensures t.
             ConnectionState::HeaderSent => r is Ok ==> *final(local_state) is HeaderExchange,
             _ => r is Err,
         }),
+        r is Ok ==> final(framed_read).unread == final(framed_read).received,
         r is Ok ==> final(framed_read).got@ == old(framed_read).got@.push(proto_header),                         // [C12.header.peer-header-checked]
 //@@ end
 
@@ -123,9 +160,10 @@ impl TransportS {
 //@@ param framed_read : HdrRead
 //@@ param idle_timeout : Ghost<int>
 //@@ ret Result<TransportS, NegotiationError>
-//@@ subst `let encoder = length_delimited_encoder(MIN_MAX_FRAME_SIZE); let framed_write = framed_write.map_encoder(|_v0| encoder); let decoder = length_delimited_decoder(MIN_MAX_FRAME_SIZE); let framed_read = framed_read.map_decoder(|_v1| decoder); let transport = Transport::bind_to_framed_codec(framed_write, framed_read, idle_timeout);` => `let transport = bind_after_headers(framed_write, framed_read);` rule=R9
+//@@ subst `|_v0|` => `|_v0: ProtocolHeaderCodec|` rule=optional-R5
+//@@ subst `|_v1|` => `|_v1: ProtocolHeaderCodec|` rule=optional-R5
 //@@ spec
-    requires framed_write.sent@.len() == 0, framed_read.got@.len() == 0,
+    requires framed_write.sent@.len() == 0, framed_read.got@.len() == 0, framed_read.unread == framed_read.received,
     ensures
         r is Ok ==> *old(local_state) is Start && *final(local_state) is HeaderExchange
             && r->Ok_0.hdr_sent@ =~= seq![ProtocolHeader { id: ProtocolId::Amqp, major: 1, minor: 0, revision: 0 }]                  // [C12.header.first] the AMQP 1.0.0 header is the first and only thing written before the frame codec takes over
@@ -137,6 +175,11 @@ pub struct SaslTransportS { pub hdr_sent: Ghost<Seq<ProtocolHeader>>, pub hdr_go
 #[verifier::external_body]
 pub fn bind_sasl_after_headers(w: HdrWrite, r: HdrRead) -> (t: SaslTransportS) ensures t.hdr_sent@ == w.sent@, t.hdr_got@ == r.got@ { unimplemented!() }
 impl SaslTransportS {
+    #[verifier::external_body]
+    pub fn bind_to_framed_codec(w: FrameWrite, r: FrameRead, idle_timeout: Option<u8>) -> (t: SaslTransportS)
+        requires r.unread@ == r.received@,        // [C06.header.pipelined-octets-survive-the-codec-switch] (SASL layer) octets of the peer's first SASL frame read together with its header stay in the read buffer
+        ensures t.hdr_sent@ == w.sent@, t.hdr_got@ == r.got@,
+    { unimplemented!() }
 //@@ fn file=fe2o3-amqp/src/transport/mod.rs impl=`~impl<Io>Transport<Io,sasl::Frame>whereIo:AsyncRead+AsyncWrite+Unpin` name=negotiate_sasl_header
 //@@ qmark
 //@@ generics
@@ -146,9 +189,11 @@ impl SaslTransportS {
 //@@ ret Result<SaslTransportS, NegotiationError>
 //@@ subst `|| { NegotiationError::Io(std::io::Error::new( std::io::ErrorKind::UnexpectedEof, "Waiting for SASL header exchange", )) }` => `|| -> (o: NegotiationError) { eof_error() }` rule=R18
 //@@ subst `incoming_header.into()` => `hdr_into_bytes(incoming_header)` rule=R16
-//@@ subst `let encoder = length_delimited_encoder(MIN_MAX_FRAME_SIZE); let framed_write = framed_write.map_encoder(|_v0| encoder); let decoder = length_delimited_decoder(MIN_MAX_FRAME_SIZE); let framed_read = framed_read.map_decoder(|_v1| decoder); let transport = Self::bind_to_framed_codec(framed_write, framed_read, None);` => `let transport = bind_sasl_after_headers(framed_write, framed_read);` rule=R9
+//@@ subst `|_v0|` => `|_v0: ProtocolHeaderCodec|` rule=optional-R5
+//@@ subst `|_v1|` => `|_v1: ProtocolHeaderCodec|` rule=optional-R5
+//@@ subst `Self::bind_to_framed_codec(` => `SaslTransportS::bind_to_framed_codec(` rule=R2
 //@@ spec
-    requires framed_write.sent@.len() == 0, framed_read.got@.len() == 0,
+    requires framed_write.sent@.len() == 0, framed_read.got@.len() == 0, framed_read.unread == framed_read.received,
     ensures
         r is Ok ==> r->Ok_0.hdr_sent@ =~= seq![ProtocolHeader { id: ProtocolId::Sasl, major: 1, minor: 0, revision: 0 }]
             && r->Ok_0.hdr_got@ =~= seq![ProtocolHeader { id: ProtocolId::Sasl, major: 1, minor: 0, revision: 0 }],                  // [C19.header.sasl-layer-not-skipped] a SASL exchange (on either side) starts only if the peer's first 8 bytes were the SASL 1.0.0 header: a peer that skips the SASL layer and sends the AMQP header is refused
